@@ -134,6 +134,9 @@ def add_parent_to_namedexpr(node):
     add_parent(node.target, namespace=namedexpr_namespace(node.namespace))
     add_parent(node.value, namespace=node.namespace)
 
+    # The target is bound outside of any comprehension it is in, remember where it lexically is
+    node.target.namedexpr = node
+
 def add_parent(node, namespace=None):
     """
     Add a namespace attribute to child nodes
